@@ -9,7 +9,7 @@
    key once, at some instant during the call), the completeness of the translator's access extraction (cross-checked by
    the race detector), panics other than those a data race can cause. *)
 From Coq Require Import List String NArith Sorted.
-From Verif Require Import LockLang LockSound LockExamples Conc ConcProofs ConcExamples Broker Run_Broker Run_Conc RunConcProofs.
+From Verif Require Import Alist Broker Run_Broker Run_Conc RunConcProofs Conc ConcProofs ConcExamples LockLang LockSound LockExamples.
 Import ListNotations.
 
 Theorem C04_no_data_race : forall C pr entries lits unsup,
